@@ -161,7 +161,22 @@ def generate(run_seed, tier):
             "zmq_ids": rf_.random() < 0.7, "raw_cap": rf_.choice([1, 2, 8, 64]), "ac_cap": rf_.choice([1, 2, 8]),
             "stalls": stalls, "tape": tape, "cpu_us": rs.choice([0, 1, 50]), "quantum_us": quantum,
             "receiver": wd["receiver"], "aircraft": wd["aircraft"], "case": rw.choice(["lower", "mixed"]), "T": T,
-            "group": fmt}
+            "disk": _gen_disk(rf_), "group": fmt}
+
+
+def _gen_disk(rf_):
+    """CSV dump regime: None (dump off, the default of modeslive), a healthy
+    simulated disk, or a disk whose open() fails transiently (ENOSPC) for a few
+    chosen calls."""
+    r = rf_.random()
+    if r < 0.65:
+        return None
+    if r < 0.75:
+        return {"fail_opens": []}
+    first = rf_.choice([0, 1, 2, 3, 5, 8, 13, 21])
+    k = rf_.choice([1, 1, 2, 3])
+    fails = sorted(set([first + i for i in range(k)] + ([first + rf_.randrange(2, 12)] if rf_.random() < 0.3 else [])))
+    return {"fail_opens": fails}
 
 
 # ---------------------------------------------------------------------------
@@ -169,7 +184,11 @@ class DecObserver(object):
     def __init__(self, sc, dec, stats):
         self.sc = sc
         self.stats = stats
-        self.model = r2.TableModel()
+        self.model = r2.TableModel()       # fed by calls that returned normally ("must be listed")
+        self.model_hi = r2.TableModel()    # also fed by calls hit by an injected disk fault ("may be listed")
+        self.fault_in_call = False
+        self.faults_fired = 0
+        self.failed = []                   # indices of calls that ended in an injected fault
         self.twin = dec.Decode(latlon=sc["receiver"])
         self.twin_model = None
         self.calls = []          # inputs of every process_raw invocation
@@ -187,7 +206,14 @@ class DecObserver(object):
     def on_exit(self, inst, call, raised):
         ci = len(self.calls)
         self.calls.append(call)
+        injected, self.fault_in_call = self.fault_in_call, False
         if raised is not None:
+            if injected and isinstance(raised, OSError) and "pmsim injected" in str(raised):
+                # narrow relaxation: a call may fail when the disk does; what it
+                # already applied to the table may stay
+                self.model_hi.feed(call)
+                self.failed.append(ci)
+                return
             self.add("C17.a", "process_raw raised %s: %s on batch %d" % (type(raised).__name__, raised, ci))
             return
         now = inst.t
@@ -197,7 +223,10 @@ class DecObserver(object):
             ts = [t for t, _ in lst]
             if any(b < a for a, b in zip(ts, ts[1:])):
                 self.premise_ok = False
-        if stamps and (min(stamps) < (self.last_stamp if self.last_stamp is not None else min(stamps)) - 1e-9 or max(stamps) > now + 1e-9):
+        if stamps and max(stamps) > now + 1e-9:
+            self.premise_ok = False
+        if stamps and not self.faults_fired and min(stamps) < (self.last_stamp if self.last_stamp is not None else min(stamps)) - 1e-9:
+            # (after an injected fault the loop legitimately re-processes older batches)
             self.premise_ok = False
         if stamps:
             self.last_stamp = max(stamps) if self.last_stamp is None else max(self.last_stamp, max(stamps))
@@ -207,15 +236,29 @@ class DecObserver(object):
             self.stats.c["premise_false_runs"] += 1
             return
         self.model.feed(call)
+        self.model_hi.feed(call)
         vs, labels = self.model.judge(keys, now)
+        vs_hi, _ = self.model_hi.judge(keys, now)
         for clause, detail in vs:
-            self.add(clause, "batch %d tnow=%r: %s" % (ci, now, detail))
+            if clause == "C17.b" or not self.faults_fired:
+                self.add(clause, "batch %d tnow=%r: %s" % (ci, now, detail))
+        if self.faults_fired:
+            for clause, detail in vs_hi:
+                if clause != "C17.b":
+                    self.add(clause, "batch %d tnow=%r: %s" % (ci, now, detail))
         for k, rec in table.items():
             ku = str(k).upper()
-            if ku not in self.model.commb:
+            if ku not in self.model_hi.commb:
                 setf = [f for f in r2.COMMB_FIELDS if rec.get(f) is not None]
                 if setf:
                     self.add("C17.d", "batch %d: %s carries Comm-B fields %r without a Comm-B reply while listed" % (ci, ku, setf))
+        if self.faults_fired:
+            # the pipeline table may have absorbed parts of failed calls the twin
+            # never saw: case comparison is only meaningful on fault-free prefixes
+            for lab in labels:
+                self.stats.c["label." + lab] += 1
+            self._accuracy(table, ci)
+            return
         # twin fed the other letter case, same clock reading
         mode = self.sc["case"]
         try:
@@ -228,6 +271,11 @@ class DecObserver(object):
         if na != nb:
             self.add("C17.e", "batch %d: pipeline table and %s-case twin disagree on %r" % (
                 ci, mode, sorted(k for k in set(na) | set(nb) if na.get(k) != nb.get(k))[:3]))
+        self._accuracy(table, ci)
+        for lab in labels:
+            self.stats.c["label." + lab] += 1
+
+    def _accuracy(self, table, ci):
         if self.sc["fmt"] == "skysense":
             for k, rec in table.items():
                 ku = str(k).upper()
@@ -243,8 +291,6 @@ class DecObserver(object):
                 if not (abs(rec["lat"] - tl) <= 0.001 and W.lon_diff(rec["lon"], tn) <= 0.001):
                     self.add("C17.f", "batch %d: %s stored (%.5f, %.5f) at tpos=%r but true position is (%.5f, %.5f)" % (
                         ci, ku, rec["lat"], rec["lon"], rec["tpos"], tl, tn))
-        for lab in labels:
-            self.stats.c["label." + lab] += 1
 
 
 def execute(sc, keep_log=False):
@@ -302,7 +348,47 @@ def execute(sc, keep_log=False):
                     obs.on_exit(self_, call, raised)
 
     source = ObsSource("sim", 30005, sc["fmt"])
-    decoder = ObsDecode(latlon=sc["receiver"])
+    disk = sc.get("disk")
+    dumped = {"rows": 0, "opens": 0}
+    saved = {}
+    if disk is not None:
+        import types
+        import datetime as _dt
+
+        fail = set(disk.get("fail_opens", []))
+
+        class MemFile(object):
+            def __enter__(self_):
+                return self_
+
+            def __exit__(self_, *a):
+                return False
+
+            def write(self_, txt):
+                dumped["rows"] += 1
+                return len(txt)
+
+        def fake_open(fn, mode="r", *a, **kw):
+            k.seam_generic("open", fn)
+            idx = dumped["opens"]
+            dumped["opens"] += 1
+            if idx in fail:
+                obs.fault_in_call = True
+                obs.faults_fired += 1
+                k.count("fault.disk_open_ENOSPC")
+                raise OSError(28, "No space left on device (pmsim injected)")
+            return MemFile()
+
+        class _FakeDatetime(object):
+            @staticmethod
+            def now():
+                return _dt.datetime(2023, 11, 14, 0, 0, 0) + _dt.timedelta(microseconds=k.now_us)
+
+        saved = {"os": dec.os, "datetime": dec.datetime}
+        dec.os = types.SimpleNamespace(path=types.SimpleNamespace(isdir=lambda p: True))
+        dec.datetime = types.SimpleNamespace(datetime=_FakeDatetime)
+        dec.open = fake_open
+    decoder = ObsDecode(latlon=sc["receiver"], dumpto="/simdisk" if disk is not None else None)
     t_src = k.spawn("source", lambda: source.run(raw_pipe, stop, exq))
     t_dec = k.spawn("decoder", lambda: decoder.run(raw_pipe, ac_pipe, exq))
     snaps = {"n": 0, "last": None, "at_calls": -1}
@@ -355,14 +441,19 @@ def execute(sc, keep_log=False):
         tc.zmq = m["real_zmq"]
         tc.time = m["real_time"]
         dec.time = m["dec_time"]
+        if saved:
+            dec.os = saved["os"]
+            dec.datetime = saved["datetime"]
+            del dec.open
     vio = list(c16.violations) + list(obs.vio)
     for t, clause in ((t_src, "C16.e"), (t_dec, "C17.g")):
         if t.crash is not None:
             vio.append({"clause": clause, "detail": "%s.run let %s escape: %s" % (t.name, type(t.crash).__name__, str(t.crash)[:200])})
     if t_scr.crash is not None:
         raise RuntimeError("screen stub crashed: %r" % (t_scr.crash,))
-    if exq.items:
-        it = exq.items[0]
+    injected_only = bool(exq.items) and all(isinstance(it, tuple) and isinstance(it[0], OSError) and "pmsim injected" in str(it[0]) for it in exq.items)
+    if exq.items and not injected_only:
+        it = [x for x in exq.items if not (isinstance(x, tuple) and isinstance(x[0], OSError) and "pmsim injected" in str(x[0]))][0]
         txt = it[1] if isinstance(it, tuple) else str(it)
         who = "C17.g" if isinstance(it, tuple) else "C16.e"
         vio.append({"clause": who, "detail": "exception queue not empty: %s" % (txt.strip().splitlines()[-1][:200],)})
@@ -370,6 +461,17 @@ def execute(sc, keep_log=False):
     seen = [{"adsb_ts": [t for t, _ in c["a"]], "adsb_msg": [x for _, x in c["a"]],
              "commb_ts": [t for t, _ in c["c"]], "commb_msg": [x for _, x in c["c"]]} for c in obs.calls]
     c16.batches = sent_batches
+    faulty = obs.faults_fired > 0
+    if faulty:
+        # at-least-once under injected faults: drop failed attempts and repeats,
+        # what remains must be the batches sent, in order
+        ok_calls = [c for i, c in enumerate(seen) if i not in set(obs.failed)]
+        dedup = []
+        for c in ok_calls:
+            if c not in dedup:
+                dedup.append(c)
+        seen = dedup
+        stats.c["fault_runs.calls_failed"] += len(obs.failed)
     if not any(v["clause"].startswith("C17.a") or v["clause"] == "C17.g" for v in vio):
         if seen != sent_batches[:len(seen)]:
             vio.append({"clause": "C16.d", "detail": "process_raw invocations differ from the batches sent: call %d" % (
@@ -405,6 +507,9 @@ def execute(sc, keep_log=False):
     if any(len(b["adsb_msg"]) + len(b["commb_msg"]) >= 3 for b in sent_batches) and k.counters.get("fault.stall_decoder"):
         stats.c["probe.decoder_stalled_with_batches_queued"] += 1
     stats.c["feeds." + sc["fmt"]] += 1
+    if disk is not None:
+        stats.c["disk.runs_with_dump"] += 1
+        stats.c["disk.rows_written"] += dumped["rows"]
     nontrivial = bool(k.counters) or k.switches > 0
     stats.sig((sc["fmt"], tuple(k.sched[:800])), nontrivial)
     for v in vio:
@@ -426,7 +531,7 @@ def focus(sc, violation):
 def shrink(sc, fails, budget_n=200):
     b = Budget(budget_n)
     sc = dict(sc)
-    for key, val in (("tape", {}), ("stalls", {}), ("cpu_us", 0), ("raw_cap", 64), ("ac_cap", 8), ("zmq_ids", False)):
+    for key, val in (("tape", {}), ("stalls", {}), ("cpu_us", 0), ("raw_cap", 64), ("ac_cap", 8), ("zmq_ids", False), ("disk", None)):
         if sc.get(key) != val and b.take():
             c = dict(sc)
             c[key] = val
